@@ -165,7 +165,7 @@ def derive_perm(case, rng):
                 break
         used.add(nm)
         names[i_] = nm
-    return dict(case, id=case["id"] + "-perm", build=script, names=names, rel={"kind": "perm"})
+    return dict(case, id=case["id"] + "-perm", build=script, names=names, rel={"kind": "perm", "base_id": case["id"]})
 
 
 def derive_dupnames(case, rng):
@@ -174,7 +174,7 @@ def derive_dupnames(case, rng):
     nodes = sorted({k["up"] for k in net["links"].values()} | {k["down"] for k in net["links"].values()})
     names = {**{l: "link" for l in net["links"]}, **{o: "origin" for o in net["origins"]},
              **{d: "destination" for d in net["dests"]}, **{n: "node" for n in nodes}}
-    return dict(case, names=names, rel={"kind": "perm"}, want={"np": True, "fn": []}, keep_want=True)
+    return dict(case, names=names, rel={"kind": "dupnames", "base_id": case["id"]}, want={"np": True, "fn": []})
 
 
 def derive_scale(case, rng):
@@ -186,15 +186,15 @@ def derive_scale(case, rng):
     for l, k in net["links"].items():
         f = fac.setdefault(k["up"], rng.choice([Fraction(2), Fraction(3), Fraction(1, 7), Fraction(37, 100), Fraction(1)]))
         k["beta"] = common.fr(Fraction(k["beta"]) * f)
-    return dict(case, id=case["id"] + "-scale", net=net, rel={"kind": "scale", "base_beta": base})
+    return dict(case, id=case["id"] + "-scale", net=net, rel={"kind": "scale", "base_beta": base, "base_id": case["id"]})
 
 
 def rel_C14(f):
-    return f[0] in ("np.y", "fn.out", "fn.name_in", "fn.name_out") or f[0] in ALWAYS
+    return f[0] == "rel.y" or f[0] in ALWAYS
 
 
 def rel_C18(f):
-    return f[0] in ("twin.y", "twin.ok", "np.y", "fn.out") or f[0] in ALWAYS
+    return f[0] in ("twin.y", "twin.ok") or f[0] in ALWAYS
 
 
 # per property: which cases, what to observe, which clauses decide
@@ -285,6 +285,13 @@ def run(pid: str, tier: str, plan=None, extra_cases=None) -> dict:
         base = base + derived
     allc = base + list(extra_cases or [])
     recs = dynpipe.execute(allc)
+    byid = {r["id"]: r for r in recs}
+    for r in recs:  # related networks carry the next states the base network produced
+        if r["rel"]["kind"] != "none":
+            base_ = byid.get(r["rel"].get("base_id"))
+            ok = bool(base_ and base_["obs"]["np"].get("ok"))
+            r["rel"]["has_base"] = ok
+            r["rel"]["base_y"] = base_["obs"]["np"]["y"] if ok else {"rho": {}, "v": {}, "w": {}}
     verdicts = dynpipe.validate(recs, tag=pid)
     return assess(pid, plan, recs, verdicts, info, len(rnd))
 
